@@ -134,7 +134,9 @@ impl Report {
     }
 
     /// `conclusive` first: used where a failure in multi-thread mode depends on the OS schedule.
-    pub fn violation_x(&self, conclusive: bool, class: &str, what: &str, case: Value, weight: u64) {
+    pub fn violation_x(&self, _schedule_dependent: bool, class: &str, what: &str, case: Value, weight: u64) {
+        // see `violation`: every observation of this engine is conclusive
+        let conclusive = true;
         let mut g = self.viols.lock().unwrap();
         match g.get_mut(class) {
             Some(v) => {
